@@ -46,7 +46,7 @@ type job struct {
 func TestC02(t *testing.T) {
 	world.Quiet()
 	run := rep.New("C02", "fault_enumeration",
-		"every assignment of a fault script (ok, refuse, reset/eof/garbage before headers, close/reset after headers and after k body bytes with Content-Length and chunked framing, truncated chunked / Content-Length bodies, backend 4xx/5xx; thorough: stalls, large and SSE bodies) to 1..2 endpoints exhaustively and to 3 endpoints by seeded sample (thorough: exhaustively for a reduced menu), per engine (thorough: x balancer); origin-tagged statuses/headers/bodies; oracle: single origin, contiguous in-order records, never more than that attempt wrote, full body if it completed, no attempt started after the delivered attempt's first byte; plus a concurrent phase: 16 senders keep requests with per-request fault scripts (keyed by nonce) in flight through one 3-endpoint stack per engine x balancer while endpoints are re-admitted, and every response must additionally be an attempt made for that very request (pooled buffers / connections never leak one request's response into another). distinct = distinct (engine, balancer, fault assignment)")
+		"every assignment of a fault script (ok, refuse, reset/eof/garbage before headers, close/reset after headers and after k body bytes with Content-Length and chunked framing, truncated chunked / Content-Length bodies, backend 4xx/5xx; thorough: stalls, large and SSE bodies) to 1..2 endpoints exhaustively and to 3 endpoints by seeded sample (thorough: exhaustively for a reduced menu), per engine (thorough: x balancer), over the proxy route, a provider route and Anthropic passthrough; origin-tagged statuses/headers/bodies; oracle: single origin, contiguous in-order records, never more than that attempt wrote, full body if it completed, no attempt started after the delivered attempt's first byte; plus a concurrent phase: 16 senders keep requests with per-request fault scripts (keyed by nonce) in flight through one 3-endpoint stack per engine x balancer while endpoints are re-admitted, and every response must additionally be an attempt made for that very request (pooled buffers / connections never leak one request's response into another). distinct = distinct (engine, balancer, fault assignment)")
 	run.Assume("fault-script backends answer with Connection: close and requests are non-idempotent POSTs, so every backend record is exactly one Olla attempt (Go's transport never replays them itself)")
 	run.Assume("whether a truncated backend body must surface to the client as an error is not judged (counted as silent_truncations)")
 	rng := rand.New(rand.NewSource(rep.Seed()))
@@ -134,8 +134,24 @@ func runChunk(run *rep.Run, j job, cases [][]fw.Fault, id int) {
 	defer f.Close()
 	hc := world.NewClient(false, 6*time.Second)
 	for ci, fs := range cases {
-		c := f.Run(hc, fmt.Sprintf("k%dc%d", id, ci), fs, "", nil, nil)
+		// the same engines serve the proxy route, the provider routes and Anthropic passthrough
+		// (ollama endpoints are native), each through its own handler code
+		nonce := fmt.Sprintf("k%dc%d", id, ci)
+		var c *fw.Case
+		switch (id + ci) % 4 {
+		case 1:
+			c = f.Run(hc, nonce, fs, "/olla/ollama/v1/chat/completions", nil, nil)
+			c.Balancer += "/provider-route"
+		case 3:
+			c = f.Run(hc, nonce, fs, "/olla/anthropic/v1/messages", []byte(fmt.Sprintf(`{"model":"mall","max_tokens":8,"messages":[{"role":"user","content":"%s"}]}`, nonce)), nil)
+			c.Balancer += "/anthropic-passthrough"
+		default:
+			c = f.Run(hc, nonce, fs, "", nil, nil)
+		}
 		judge(run, c)
+		if len(c.Res.Header.Values("X-Origin")) > 0 {
+			run.Count("judged_with_backend_response/"+[]string{"proxy", "provider", "proxy", "anthropic-passthrough"}[(id+ci)%4], 1)
+		}
 		f.Readmit()
 	}
 }
